@@ -318,6 +318,7 @@ class LQR(nn.Module):
             self.u_traj = u_traj
 
         self.x_traj = x_init.unsqueeze(-2).repeat((1, self.T, 1))
+        self.system.reset()    # the horizon starts at t = 0 whatever was run before
 
         self.x_traj = runsys(self.system, self.T, self.x_traj, self.u_traj)
 
